@@ -12,7 +12,8 @@ for ID in $IDS; do
   [ -f seeded/$ID/also.txt ] && CHECKS="$(echo $ID | cut -c1-3) $(cat seeded/$ID/also.txt)"
   for C in $CHECKS; do
     ./check $C quick > /tmp/run_seed.$ID.$C.out 2>&1; RC=$?
-    KEY=$(grep -m1 "key=" /tmp/run_seed.$ID.$C.out | sed 's/ occurrences.*//; s/^ *//')
+    # first key of a VIOLATION (not of a KNOWN-FINDING line)
+    KEY=$(grep -A1 "^VIOLATION" /tmp/run_seed.$ID.$C.out | grep -m1 "key=" | sed 's/ occurrences.*//; s/^ *//')
     echo "$ID check=$C exit=$RC $KEY"
   done
   git -C /repo checkout -- .
